@@ -41,10 +41,13 @@ Proof.
 Qed.
 
 Theorem mk_sumc_correct k ops r rr cc :
-  Forall wf ops -> ops <> [] -> same_dims_l rr cc ops -> mk_sumc k ops = Ok r ->
+  ops <> [] -> same_dims_l rr cc ops -> mk_sumc k ops = Ok r ->
   denote r == dsuml (map denote ops).
 Proof.
-  intros HW Hne HD H. unfold mk_sumc in H. binv H. binv H0.
+  intros Hne HD H. unfold mk_sumc in H.
+  destruct (forallb wfb ops) eqn:HWb; simpl in H; [|discriminate].
+  assert (HW : Forall wf ops) by (apply forallb_Forall; exact HWb).
+  binv H. binv H0.
   pose proof (bcast_all_shape _ _ E) as ES. pose proof (bcast_all_sub _ _ E) as HB.
   apply mapM_Forall2 in E0.
   assert (HF : Forall2 (fun x y => denote y == dexpand a (denote x)) ops a0).
@@ -67,12 +70,13 @@ Proof.
 Qed.
 
 Lemma mk_sumc_is_sum k ops r : mk_sumc k ops = Ok r -> exists k' ops', r = SumC k' ops'.
-Proof. unfold mk_sumc. intros H. binv H. binv H0. eapply sumc_checks_is_sum. eassumption. Qed.
+Proof. unfold mk_sumc. destruct (forallb wfb ops); simpl; [|discriminate]. intros H. binv H. binv H0. eapply sumc_checks_is_sum. eassumption. Qed.
 
 Theorem mk_matmul_correct l r m :
-  wf l -> wf r -> mk_matmul l r = Ok m -> denote m == dmm (denote l) (denote r) /\ cols l = rows r /\ bcompat (batch l) (batch r) = true.
+  mk_matmul l r = Ok m -> denote m == dmm (denote l) (denote r) /\ cols l = rows r /\ bcompat (batch l) (batch r) = true.
 Proof.
-  intros HL HR. unfold mk_matmul.
+  unfold mk_matmul. destruct (wfb l && wfb r) eqn:HWb; simpl; [|discriminate].
+  apply andb_true_iff in HWb. destruct HWb as (HL & HR).
   destruct (Nat.eqb (cols l) (rows r)) eqn:EC; simpl; [|discriminate]. apply Nat.eqb_eq in EC.
   destruct (bcompat (batch l) (batch r)) eqn:EB; simpl; [|discriminate].
   intros H. binv H. binv H0. okinv H1. split; [|split; [assumption|reflexivity]].
